@@ -5957,6 +5957,7 @@ class Lazy(Subconstruct):
             len = self.subcon._actualsize(stream, context, path)
             stream_seek(stream, offset + len, 0, path)
         except SizeofError:
+            stream_seek(stream, offset, 0, path)
             self.subcon._parse(stream, context, path)
         return execute
 
@@ -6067,6 +6068,7 @@ class LazyStruct(Construct):
                 offset += sc._actualsize(stream, context, path)
                 stream_seek(stream, offset, 0, path)
             except SizeofError:
+                stream_seek(stream, offset, 0, path)
                 parseret = sc._parsereport(stream, context, path)
                 values[i] = parseret
                 if sc.name:
@@ -6194,6 +6196,7 @@ class LazyArray(Subconstruct):
                 offset += sc._actualsize(stream, context, path)
                 stream_seek(stream, offset, 0, path)
             except SizeofError:
+                stream_seek(stream, offset, 0, path)
                 parseret = sc._parsereport(stream, context, path)
                 values[i] = parseret
                 offset = stream_tell(stream, path)
